@@ -13,21 +13,25 @@
            if variances still unset:  variances := ones
            then k iterations of EM on whatever is in place (no re-initialisation)
 
-   Named deviation: FIT_REINITIALISES_EVERY_CALL.          *)
+     initialize_gaussians() called by the user on a MAP machine (any time, also after training): means,
+           variances, floors AND weights := prior's -- the machine is the prior again, and training starts over
+
+   Named deviations: FIT_REINITIALISES_EVERY_CALL, REINIT_KEEPS_WEIGHTS.          *)
 EXTENDS Integers, Sequences, TLC, Json
 
 CONSTANTS Caps,         \* iteration caps of a fit call
           MaxCalls,
           Dev
 
-VARIABLES trainer, means, vars, iters, hist
-fvars == <<trainer, means, vars, iters, hist>>
+VARIABLES trainer, means, vars, wts, iters, hist
+fvars == <<trainer, means, vars, wts, iters, hist>>
 
 \* an ML machine is born without Gaussians; a MAP machine is born with its prior's (the constructor copies
 \* them), so through the public API its means and variances are never unset
 Init == /\ trainer \in {"ml", "map"}
         /\ means \in (IF trainer = "map" THEN {"prior", "user"} ELSE {"unset", "user"})
         /\ vars \in (IF trainer = "map" THEN {"prior", "user"} ELSE {"unset", "user"})
+        /\ wts = (IF trainer = "map" THEN "prior" ELSE "default")
         /\ iters = 0 /\ hist = <<>>
 
 InitMeans == IF trainer = "map" THEN "prior" ELSE "kmeans"
@@ -40,16 +44,31 @@ Fit(k) ==
                  ELSE vars
            v2 == IF v1 = "unset" THEN "ones" ELSE v1
            i1 == IF reinit THEN 0 ELSE iters
+           w1 == IF reinit THEN InitMeans ELSE wts
        IN /\ means' = m1 /\ vars' = v2 /\ iters' = i1 + k
-          /\ hist' = Append(hist, [cap |-> k, means0 |-> m1, vars0 |-> v2, reinit |-> reinit, total |-> i1 + k])
+          /\ wts' = (IF k > 0 THEN "trained" ELSE w1)                 \* (every switch is on in this model)
+          /\ hist' = Append(hist, [op |-> "fit", cap |-> k, means0 |-> m1, vars0 |-> v2, wts0 |-> w1, reinit |-> reinit,
+                                   total |-> i1 + k])
     /\ UNCHANGED trainer
-Next == \E k \in Caps : Fit(k)
+\* the user re-initialises a MAP machine: it is its prior again
+Reinit ==
+    /\ trainer = "map" /\ Len(hist) < MaxCalls /\ Len(hist) >= 1
+    /\ means' = "prior" /\ vars' = "prior" /\ iters' = 0
+    /\ wts' = (IF "REINIT_KEEPS_WEIGHTS" \in Dev THEN wts ELSE "prior")
+    /\ hist' = Append(hist, [op |-> "reinit", cap |-> 0, means0 |-> "prior", vars0 |-> "prior", wts0 |-> wts', reinit |-> FALSE,
+                             total |-> 0])
+    /\ UNCHANGED trainer
+Next == (\E k \in Caps : Fit(k)) \/ Reinit
 Spec == Init /\ [][Next]_fvars
 
 \* the initialisation runs only on a machine whose means were never set
 InitOnlyWhenMeansUnset == \A i \in 1..Len(hist) : hist[i].reinit => (i = 1 /\ hist[i].means0 \in {"prior", "kmeans"})
 \* later calls continue from the parameters in place: fit(k1); fit(k2) is fit(k1 + k2)
-FitsCompose == \A i \in 2..Len(hist) : hist[i].total = hist[i - 1].total + hist[i].cap /\ hist[i].means0 = hist[i - 1].means0
+FitsCompose == \A i \in 2..Len(hist) : hist[i].op = "fit" =>
+                   /\ hist[i].total = hist[i - 1].total + hist[i].cap /\ hist[i].means0 = hist[i - 1].means0
+\* after a re-initialisation the machine is its prior in every parameter, and the next fit starts over from it
+ReinitRestoresPrior == \A i \in 1..Len(hist) : hist[i].op = "reinit" =>
+                           hist[i].means0 = "prior" /\ hist[i].vars0 = "prior" /\ hist[i].wts0 = "prior"
 \* a MAP machine starts from its prior, whatever was assigned to its variances before (the prior is copied whole)
 MapStartsFromPrior == (trainer = "map" /\ Len(hist) >= 1) =>
                           /\ ~hist[1].reinit                          \* nothing to initialise: training starts from what is in place
